@@ -677,7 +677,8 @@ MANIFEST_ENTRY = {
              'Also proved: fftshift(fft(ifftshift(x))) with NumPy\'s index rotations IS the centred DFT for every length, so the FFT '
              'route is covered end to end on each axis under the contract that scipy.fft computes the DFT sum. '
              'PARTIAL: FFT-route y-coordinate claims are restricted to square padded arrays (known finding fft-nonsquare-dx); '
-             'the statement that the spot is the global maximum of |F| is checked on the real outputs, not proved.'),
+             'that the spot is the global maximum of |F| is proved for a flat pupil with any tilt and the actual kernel '
+             'exp(-2 pi i t) (spot_is_brightest_real), for other pupils it is only what the integral says.'),
     'note': ('Trusted: Lean kernel + propext/Classical.choice/Quot.sound; the ast->Lean translator (validated by running model vs '
              'code each run); numpy/scipy primitives; float64 rounding (1e-9 tolerance, observed 1e-14). Not covered: cupy/torch '
              'backends, float32 precision mode, energy normalisation (C02).'),
